@@ -21,7 +21,7 @@ LEVEL = 'exploration'
 TECHNIQUE = 'property-based testing over nodes and slices; oracles: snapshot equality, CPython parse of the piece via embeddings, cut == copy+delete (metamorphic), token conservation'
 RULE = ('For module sources (real windows, snippets, templates, layout-mutated) a Hypothesis-drawn sample of nodes (copy / get / cut) and '
         'of (container, start, stop) slices (get_slice / view copy / cut) incl. virtual fields, with drawn trivia / pars / pars_walrus / '
-        'pars_arglike / docstr / norm_get options. Oracles: (1) source and positioned dump of the tree read from are identical before '
+        'pars_arglike / docstr / norm_get options, plus grids over programs with multi-line str / bytes / f-string literals in and out of docstring positions x every node x docstr value. Oracles: (1) source and positioned dump of the tree read from are identical before '
         'and after copy/get/get_slice, also when the call raises; (2) the piece is a root, its source parses on its own under CPython '
         '(through the embedding of its kind) to exactly the piece\'s tree, and its structure (contexts erased, docstring re-indent '
         'normalised) equals the original sub-tree, resp. the elements original[start:stop] in order; (3) on two copies of the tree, '
@@ -65,6 +65,14 @@ def strategy(tier):
     return strat()
 
 
+# multi-line literals which are NOT str in the positions where a str would be a docstring / a re-indentable string statement (bytes, f-string, implicit
+# concatenation of bytes), continuation lines indented more and less than the block: re-indentation must never reach into them
+NONSTR_MULTILINE_PROGRAMS = (
+    'class C:\n    def m(self):\n        b"""raw\n        bytes\n      less\n            more"""\n        x = 1\n        b\'\'\'later\n        stmt\'\'\'\n        return x',
+    'def f():\n    b"""first\n    bytes"""\n    if a:\n        b"""if\n        first"""\n        rb"""raw\n  \\d"""\n    for i in j:\n        f"""f\n        {i}\n        string"""',
+    'if a:\n    class D:\n        b"""class\n        bytes"""\n        def g(self):\n            (b"""par\n            bytes""")\n            b"x" b"""concat\n            bytes"""\n            v = b"""value\n            bytes"""',
+)
+
 def enumerate_cases(tier, shard, nshards, seed):
     """Grid: every node (copy / get / cut) and every container x every (start, stop) window of up to 3 elements (get_slice / cut), with four option
     sets, on the f-string, trivia-dense and container template programs."""
@@ -106,7 +114,7 @@ def enumerate_cases(tier, shard, nshards, seed):
                 yield {'src': src, 'targets': [list(job)], 'grid': True}
 
     # every node of the multi-line-string programs x docstr in (default, False, 'strict') x (copy, get); statement windows likewise
-    for src in gen.DOCSTR_PROGRAMS:
+    for src in gen.DOCSTR_PROGRAMS + NONSTR_MULTILINE_PROGRAMS:
         tree = ast.parse(src)
 
         for ti in range(len(em.node_targets(tree))):
